@@ -9,6 +9,7 @@ import (
 
 	"github.com/jsightapi/jsight-schema-core/notations/jschema"
 	"github.com/jsightapi/jsight-schema-core/notations/jschema/ischema"
+	jdoc "github.com/jsightapi/jsight-schema-core/formats/json"
 	jregex "github.com/jsightapi/jsight-schema-core/notations/regex"
 	"github.com/jsightapi/jsight-schema-core/openapi"
 	"github.com/jsightapi/jsight-schema-core/rules/enum"
@@ -161,6 +162,21 @@ func C11Harnesses(threads int) []*C11Harness {
 		})
 	}
 	hs = append(hs, h5)
+	// H6: own regex objects, own enum rules and own JSON documents over the SAME texts
+	// (anything keyed by the text instead of the object would be shared between them)
+	h6 := &C11Harness{Name: "H6-own-objects-same-text", Setup: func() any { return nil }}
+	for i := 0; i < threads; i++ {
+		h6.Threads = append(h6.Threads, func(any) string {
+			r := jregex.New("r", c10Regex)
+			ex, e := r.Example()
+			en := enum.New("e", c10Enum)
+			vals, e2 := en.Values()
+			d := jdoc.New("d", c10Doc)
+			l, e3 := d.Len()
+			return fmt.Sprintf("regex=%s|%s enum=%d|%s doc=%d|%s|%s", ex, errSnap(e), len(vals), errSnap(e2), l, errSnap(e3), errSnap(d.Check()))
+		})
+	}
+	hs = append(hs, h6)
 	// H3: shared enum rule / shared regex
 	hs = append(hs, &C11Harness{Name: "H3-shared-enum", Setup: func() any { return enum.New("e", c10Enum) }, Threads: []func(any) string{
 		func(x any) string { return "check=" + errSnap(x.(*enum.Enum).Check()) },
@@ -376,7 +392,7 @@ func init() {
 		Inst:      true,
 		MaxProcs:  1, // goroutine hand-offs are direct switches with one P
 		Technique: "stateless model checking of the real code under a cooperative scheduler: every interleaving of 2-3 goroutines at every sync operation (Mutex/RWMutex/Once/Pool, with points before and after pool operations) up to a preemption bound, combined with sync.Pool answers; plus a separate free-running pass of the same harness bodies under the Go race detector",
-		Rule:      "harnesses: H1 own objects (New+Check+Example+OpenAPI on different nested schemas, colliding in the buffer pools and the loader pool), H2 one shared schema with types (Check || Example || GetAST/Len/UsedUserTypes, and OpenAPI || UsedUserTypes), H3 shared enum rule and shared regex, H4 VirtualNodeForAny, EnsureAdditionalProperties, StringSet, H5 own roots sharing one registered type object (first use of the type contended; one preemption); preemption bound 2, pool answers {most recent, older, New()} as deviations, scribbling pool; oracle: no deadlock, no panic, every thread's result equals its sequential result, a retained example is unchanged; non-trivial = executions",
+		Rule:      "harnesses: H1 own objects (New+Check+Example+OpenAPI on different nested schemas, colliding in the buffer pools and the loader pool), H2 one shared schema with types (Check || Example || GetAST/Len/UsedUserTypes, and OpenAPI || UsedUserTypes), H3 shared enum rule and shared regex, H4 VirtualNodeForAny, EnsureAdditionalProperties, StringSet, H6 own regex / enum / document objects over the same texts, H5 own roots sharing one registered type object (first use of the type contended; one preemption); preemption bound 2, pool answers {most recent, older, New()} as deviations, scribbling pool; oracle: no deadlock, no panic, every thread's result equals its sequential result, a retained example is unchanged; non-trivial = executions",
 		Bounds: func(tier string) map[string]any {
 			return map[string]any{"threads": map[string]int{"quick": 2, "thorough": 3}[tier], "preemption_bound": map[string]int{"quick": 2, "thorough": 2}[tier], "race_pass": "16 goroutines x 150 iterations, go build -race, real sync"}
 		},
